@@ -100,8 +100,8 @@ PROPS = {
         'trusted': [PYFRAME_TRUST, 'hash() deterministic within a process'],
     },
     'C17': {
-        'level': 'proof', 'extra': ['pyframe.effects'],
-        'explanation': 'map-fresh obligations: every read of the accessor map is dominated by the wild-column refresh (per read site). Sanitisation language properties and resolution (getattr / item assignment / dir) are bounded only in this round.',
+        'level': 'proof', 'extra': ['pyframe.effects', 'pylang.sanitize'],
+        'explanation': 'pylang: the real statements of _sanitize_user_name are interpreted as language transformers on DFAs over [a-z0-9_]; for EVERY input string the result is None or a lower-case identifier, is not a public Vector/Table attribute (the real reserved set, recomputed each run), does not look like a generated name__N or colN_ accessor, and the three accessor families are pairwise disjoint (exact automata decisions with witness strings). pyframe map-fresh: every read of the accessor map is dominated by the wild-column refresh (per read site). Resolution through __getattr__ / item assignment / dir / repr dot row is bounded.',
         'trusted': [PYFRAME_TRUST],
     },
     'C18': {
